@@ -381,7 +381,16 @@ class C16(CheckBase):
         if caller and ch.coin(0.25):
             # the documented switch: load: then walks the search path only
             extra["prepend_relative"] = False
-        sp_ = ch.weighted([(7, None), (2, "rel"), (1, "home")], "spell")
+        if pkg_path and ch.coin(0.4):
+            # the package-relative entry comes first (names it does not
+            # have are found further along) ...
+            extra["pkg_first"] = True
+        if ch.coin(0.2):
+            # ... and the directories are given relative to the directory
+            # the process runs in
+            extra["rel_search"] = True
+        sp_ = None if extra.get("rel_search") else \
+            ch.weighted([(7, None), (2, "rel"), (1, "home")], "spell")
         if sp_:
             # the object's path as a user spells it - relative to the
             # directory the process is in when it makes the object (it is
@@ -516,9 +525,14 @@ class C16(CheckBase):
                     **({"prepend_relative_search_path": False}
                        if case.get("prepend_relative") is False else {}))
                 objs.append(ob)
+            if case.get("rel_search"):
+                os.chdir(root)
+            pkg_ = ["chameleon.tests:inputs"] if case.get("pkg_path") else []
             loader = self.TemplateLoader(
-                [os.path.join(root, d) for d in case["search_path"]] +
-                (["chameleon.tests:inputs"] if case.get("pkg_path") else []),
+                (pkg_ if case.get("pkg_first") else []) +
+                [d if case.get("rel_search") else os.path.join(root, d)
+                 for d in case["search_path"]] +
+                ([] if case.get("pkg_first") else pkg_),
                 default_extension=case["default_extension"],
                 auto_reload=case["auto_reload"],
                 formats={"xml": self.CountingFile,
